@@ -111,6 +111,33 @@ T = {
  "C17d-2": ("C17", "AbsPath::parent skips re-canonicalising and becomes its own base", "an includer below the base directory and an included source reached as a dependency before any scan finds it"),
  "C18d-1": ("C18", "verify compares against BufReader::fill_buf in a loop that never advances at EOF", "verify of an output that gets shorter after it was opened, e.g. a temp directive aimed at the source's own output"),
  "C18d-2": ("C18", "the line loop skips output-less lines by calling itself", "some thousand consecutive directive / continuation lines (stack overflow aborts the process)"),
+ # round e: as round d, and at least one of the two changes had to depend on timing, a fault or crash at a particular point, or a multi-step history
+ "C01e-1": ("C01", "done() calls sync_all on the inner file instead of flush", "a write error on the final flush of an output (the only write of an output below 8 KiB)"),
+ "C01e-2": ("C01", "a source reads each included file once (cache keyed by the path as written)", "one source includes the same file twice and rewrites it in between through a temp directive that spells the path differently, or through a command"),
+ "C02e-1": ("C02", "process-wide cache of the lookup 'does this include target have a .txtpp source'", "two runs in one process; between them an included plain file gains a .txtpp source"),
+ "C02e-2": ("C02", "`after` accepts several files: the argument is split on blanks unless a file of that name exists", "an `after` target with a blank in its name whose output does not exist yet, and the depender's first pass before the target's"),
+ "C03e-1": ("C03", "process-wide memo of canonicalised absolute paths", "two runs in one process and a symbolic link on the way to a requested path retargeted in between"),
+ "C03e-2": ("C03", "the directive name ends at any whitespace (slice at i + 1)", "a multi-byte blank (U+3000, U+00A0) right after `TXTPP#name`: the worker panics, the coordinator waits for ever"),
+ "C04e-1": ("C04", "a failed run no longer joins the pool; workers ignore a closed channel", "run 1 fails while a sibling's worker is still inside its pass; the sources are repaired; run 2 in the same process succeeds and the straggler then writes its old text over the output"),
+ "C04e-2": ("C04", "verify compares the stored output as lossily decoded text", "an output containing U+FFFD and a tamper that turns EF BF BD into an ill-formed sequence of the same length"),
+ "C05e-1": ("C05", "verify starts every file in execute mode (no dependency collection)", "build an acyclic project, close a cycle with an edit that leaves the outputs up to date (`after`), verify"),
+ "C05e-2": ("C05", "first-pass de-duplication keyed by the output path", "both spellings foo.txt.txtpp and foo.txtpp.txt exist and the second is scheduled first (two sources for one output: outside the input domain 4.3 item 12)"),
+ "C06e-1": ("C06", "verify does not register dependencies: the depender is re-scheduled at once", "a depender that includes a temp file its dependency writes; the temp text is edited after the build; the depender's pass reads it before the dependency refreshed it"),
+ "C06e-2": ("C06", "verify takes the stored output's length from symlink_metadata", "an output path that is a symbolic link to a regular file"),
+ "C07e-1": ("C07", "existing plain files given as inputs are skipped", "inputs name sources by their output path and the outputs exist: build, then clean with the same inputs"),
+ "C07e-2": ("C07", "backslashes in path arguments become separators, except in clean mode", "a temp target with a backslash in its name"),
+ "C08e-1": ("C08", "add_dependency: `break` instead of `continue` on a repeated edge", "the same dependency listed twice in front of another one that is still unfinished when the first finishes, and a leftover at that one's output"),
+ "C08e-2": ("C08", "write_temp_file returns early when the content is empty", "a temp directive without content lines and a non-empty leftover at its target"),
+ "C09e-1": ("C09", "process-wide memo (digest, length) of temp files already in sync", "two runs in one process and a temp file changed in between without changing its length"),
+ "C09e-2": ("C09", "the --needed output goes through a BufWriter that is never flushed", "--needed, a stale output below 8 KiB and a write error on its data"),
+ "C10e-1": ("C10", "try_resolve falls back to the base directory for paths that do not exist next to the source", "a clean run while sub/N is absent and another file base/N exists (N a temp target of a source in sub/)"),
+ "C10e-2": ("C10", "clean resolves (canonicalises) the output path before removing it", "an output path that is a symbolic link: clean deletes the file behind it"),
+ "C11e-1": ("C11", "build writes each output to <source>.tmp beside the source and renames it", "a directory scanned while one of its sources is mid-pass (the partial file has a source-shaped name), or a kill before the rename"),
+ "C11e-2": ("C11", "function-local static memo of dependency-source lookups", "two runs in one process; between them an included plain file gains (or loses) a .txtpp source"),
+ "C17e-1": ("C17", "commands run by the first pass are recorded and replayed in the final pass", "a command above the first dependency line whose output depends on that dependency's product"),
+ "C17e-2": ("C17", "TXTPP_FILE is set from the path's exact bytes", "a source whose file name is not valid UTF-8 and a command that starts txtpp: the guard read the variable with env::var and skipped it (neutralised by the repair of D7)"),
+ "C18e-1": ("C18", "verify reads the stored output lazily in one go and slices it", "verify, two threads, a temp directive of another source rewriting the output (shorter) between the size sample and the first comparison"),
+ "C18e-2": ("C18", "inject_tags without the overlap guard", "two live tags, a suffix of one being a prefix of the other (NAME_, _ID), used overlapping on one line"),
 }
 
 def main():
